@@ -23,6 +23,7 @@ func runC15(c *Ctx) {
 	c15R2(c, ms)
 	c15R3(c, ms)
 	indexResolution(c, "R4")
+	c.shared("R5", "C09/R3", "push stores a copy of its argument made by copyValue: the stored element is a value of the same kind in a cell of its own (a null that shares the caller's cell changes when the caller's variable does)", keyHas("copy Value", "copy-on-insert ExprCall.Args"), c09R3)
 }
 
 // receiverPerCall (= C10/R3): method lookup must not write the receiver into shared cells.
